@@ -1,0 +1,136 @@
+// Verification hooks: compiled only under `--cfg substrate_fixed_verif`.
+//
+// Thin public wrappers over crate-private helpers that take the layout
+// (signedness, width, number of fractional bits) as run-time arguments, so
+// that an external harness can exercise them for every layout. Integers are
+// passed as `u128` two's-complement bit patterns (low `nbits` significant).
+
+use crate::{
+    arith::MulDivOverflow,
+    float_helper::FloatHelper,
+    helpers::{FloatKind, ToFixedHelper, ToFloatHelper, Widest},
+    int_helper::IntHelper,
+    wide_div::WideDivRem,
+};
+use core::cmp::Ordering;
+
+macro_rules! by_prim {
+    ($signed:expr, $nbits:expr, $T:ident => $body:expr) => {
+        match ($signed, $nbits) {
+            (false, 8) => { type $T = u8; $body }
+            (false, 16) => { type $T = u16; $body }
+            (false, 32) => { type $T = u32; $body }
+            (false, 64) => { type $T = u64; $body }
+            (false, 128) => { type $T = u128; $body }
+            (true, 8) => { type $T = i8; $body }
+            (true, 16) => { type $T = i16; $body }
+            (true, 32) => { type $T = i32; $body }
+            (true, 64) => { type $T = i64; $body }
+            (true, 128) => { type $T = i128; $body }
+            _ => panic!("verif_hooks: unsupported primitive"),
+        }
+    };
+}
+
+/// `MulDivOverflow::mul_overflow`
+pub fn mul_overflow(signed: bool, nbits: u32, a: u128, b: u128, frac_nbits: u32) -> (u128, bool) {
+    by_prim!(signed, nbits, T => {
+        let (v, o) = (a as T).mul_overflow(b as T, frac_nbits);
+        (v as u128, o)
+    })
+}
+
+/// `MulDivOverflow::div_overflow`
+pub fn div_overflow(signed: bool, nbits: u32, a: u128, b: u128, frac_nbits: u32) -> (u128, bool) {
+    by_prim!(signed, nbits, T => {
+        let (v, o) = (a as T).div_overflow(b as T, frac_nbits);
+        (v as u128, o)
+    })
+}
+
+macro_rules! by_prim_pair {
+    ($signed:expr, $nbits:expr, $S:ident, $U:ident => $body:expr) => {
+        match ($signed, $nbits) {
+            (false, 8) => { type $S = u8; type $U = u8; $body }
+            (false, 16) => { type $S = u16; type $U = u16; $body }
+            (false, 32) => { type $S = u32; type $U = u32; $body }
+            (false, 64) => { type $S = u64; type $U = u64; $body }
+            (false, 128) => { type $S = u128; type $U = u128; $body }
+            (true, 8) => { type $S = i8; type $U = u8; $body }
+            (true, 16) => { type $S = i16; type $U = u16; $body }
+            (true, 32) => { type $S = i32; type $U = u32; $body }
+            (true, 64) => { type $S = i64; type $U = u64; $body }
+            (true, 128) => { type $S = i128; type $U = u128; $body }
+            _ => panic!("verif_hooks: unsupported primitive"),
+        }
+    };
+}
+
+/// `WideDivRem::div_rem_from`: `d.div_rem_from((n1, n0)) -> ((q1, q0), r)`
+pub fn div_rem_from(signed: bool, nbits: u32, d: u128, n1: u128, n0: u128) -> ((u128, u128), u128) {
+    by_prim_pair!(signed, nbits, S, U => {
+        let ((q1, q0), r) = (d as S).div_rem_from((n1 as S, n0 as U));
+        ((q1 as u128, q0 as u128), r as u128)
+    })
+}
+
+fn flatten(h: ToFixedHelper) -> (bool, u128, i8, bool) {
+    let dir = match h.dir {
+        Ordering::Less => -1,
+        Ordering::Equal => 0,
+        Ordering::Greater => 1,
+    };
+    match h.bits {
+        Widest::Unsigned(b) => (false, b, dir, h.overflow),
+        Widest::Negative(b) => (true, b as u128, dir, h.overflow),
+    }
+}
+
+/// `IntHelper::to_fixed_helper`, flattened to `(is_negative_variant, bits, dir, overflow)`
+pub fn to_fixed_helper(
+    signed: bool,
+    nbits: u32,
+    bits: u128,
+    src_frac_bits: i32,
+    dst_frac_bits: u32,
+    dst_int_bits: u32,
+) -> (bool, u128, i8, bool) {
+    by_prim!(signed, nbits, T => {
+        flatten((bits as T).to_fixed_helper(src_frac_bits, dst_frac_bits, dst_int_bits))
+    })
+}
+
+/// Flattened `FloatKind`: `kind` is 0 for NaN, 1 for infinite, 2 for finite.
+pub struct FlatFloatKind {
+    pub kind: u8,
+    pub neg: bool,
+    pub conv: (bool, u128, i8, bool),
+}
+
+fn flatten_kind(k: FloatKind) -> FlatFloatKind {
+    match k {
+        FloatKind::NaN => FlatFloatKind { kind: 0, neg: false, conv: (false, 0, 0, false) },
+        FloatKind::Infinite { neg } => FlatFloatKind { kind: 1, neg, conv: (false, 0, 0, false) },
+        FloatKind::Finite { neg, conv } => FlatFloatKind { kind: 2, neg, conv: flatten(conv) },
+    }
+}
+
+/// `FloatHelper::to_float_kind` for `f32`
+pub fn to_float_kind_f32(bits: u32, dst_frac_bits: u32, dst_int_bits: u32) -> FlatFloatKind {
+    flatten_kind(f32::from_bits(bits).to_float_kind(dst_frac_bits, dst_int_bits))
+}
+
+/// `FloatHelper::to_float_kind` for `f64`
+pub fn to_float_kind_f64(bits: u64, dst_frac_bits: u32, dst_int_bits: u32) -> FlatFloatKind {
+    flatten_kind(f64::from_bits(bits).to_float_kind(dst_frac_bits, dst_int_bits))
+}
+
+/// `FloatHelper::from_to_float_helper` for `f32`
+pub fn from_to_float_helper_f32(neg: bool, abs: u128, frac_bits: u32, int_bits: u32) -> u32 {
+    f32::from_to_float_helper(ToFloatHelper { neg, abs }, frac_bits, int_bits).to_bits()
+}
+
+/// `FloatHelper::from_to_float_helper` for `f64`
+pub fn from_to_float_helper_f64(neg: bool, abs: u128, frac_bits: u32, int_bits: u32) -> u64 {
+    f64::from_to_float_helper(ToFloatHelper { neg, abs }, frac_bits, int_bits).to_bits()
+}
